@@ -3,6 +3,7 @@ CONSTANTS t1 = t1 t2 = t2 t3 = t3
   Threads <- T3
   MaxAttempts = 4
   NeedsDrop = TRUE
+  PublishLate = FALSE
   SeedDropInside = FALSE
-INVARIANTS InitOnce SeedKept ExactlyOneArm DropOnce NoLeak RefOnlyWhenDone
+INVARIANTS InitOnce SeedKept ExactlyOneArm DropOnce NoLeak RefOnlyWhenDone PublishedWhole
 CHECK_DEADLOCK FALSE
